@@ -14,6 +14,7 @@ type impFn struct {
 	p       *impPkg
 	fd      *ast.FuncDecl
 	name    string
+	recvTy  *ity
 	recv    string // receiver variable ("" = none); passed and returned by value
 	results []*ity
 	scopes  []map[string]*ity
@@ -93,7 +94,9 @@ func copySet(m map[string]bool) map[string]bool {
 	return r
 }
 
-func pathPrefix(a, b string) bool { return a == b || strings.HasPrefix(b, a+".") || strings.HasPrefix(b, a+"[") }
+func pathPrefix(a, b string) bool {
+	return a == b || strings.HasPrefix(b, a+".") || strings.HasPrefix(b, a+"[")
+}
 
 func (f *impFn) killGuards(lhs string) {
 	for g := range f.nonNil {
